@@ -265,6 +265,51 @@ pub fn generate(prop: &str, tier: &str, r: &mut Rng, out: &mut Vec<String>) -> G
             }
             GenInfo { rule: "for each well-formed message (short fixed ones and seeded random ones): every cut point before the end-of-attributes tag (end of stream after k bytes) and a single injected I/O failure at every byte offset before that tag (all kinds for short messages, a random kind per offset for long ones; WouldBlock for the blocking reader), through both parsers; the outcome must be an error carrying that kind; non-trivial = distinct scripts".into(), exhaustive: false }
         }
+        "C08" => {
+            use crate::gen3::*;
+            let n = if thorough { 30_000 } else { 2_000 };
+            let lim = Limits { max_depth: 2, boundary: false };
+            for i in 0..n {
+                let mut rr = r.fork();
+                let m = gen_msg(&mut rr, &lim);
+                let kind = ["none", "sync", "async"][i % 3];
+                let cons = if (i / 3) % 2 == 0 { "read" } else { "aread" };
+                let plen = match rr.below(6) {
+                    0 => 0,
+                    1 => 1,
+                    2..=3 => rr.range(2, 300) as usize,
+                    4 => rr.range(300, 5000) as usize,
+                    _ => if thorough && rr.chance(1, 20) { rr.range(1 << 20, 3 << 20) as usize } else { rr.range(5000, 70000) as usize },
+                };
+                let pay = rr.bytes(plen);
+                let mut evs = random_composition(&mut rr, &pay);
+                if kind == "async" || rr.chance(1, 4) {
+                    evs = with_pending(&mut rr, evs);
+                }
+                if kind == "sync" && rr.chance(1, 3) {
+                    evs = with_interrupts(&mut rr, evs);
+                }
+                if kind == "none" {
+                    evs.clear();
+                }
+                let nsz = rr.below(40);
+                let sizes: Vec<String> = (0..nsz).map(|_| match rr.below(5) { 0 => 1, 1 => rr.range(1, 16), 2 => rr.range(1, 300), 3 => rr.range(1, 4096), _ => rr.range(1, 65536) }.to_string()).collect();
+                out.push(format!("stream {} {} {} (pay{}{}) (sizes{}{})", kind, cons, show_msg(&m),
+                    if evs.is_empty() { "" } else { " " }, crate::sources::show_events(&evs),
+                    if sizes.is_empty() { "" } else { " " }, sizes.join(" ")));
+            }
+            GenInfo { rule: "seeded random messages x payload source kind {none, blocking, async} x payload contents (0 B to 70 KB; MiBs in the thorough tier) delivered in random fragments with not-ready results (async; ignored by blocking) and Interrupted results (blocking) x consumer {Read, AsyncRead} x sequences of 0-39 read-buffer sizes from 1 B to 64 KiB (then 4096); the drained bytes and the way the stream ends are compared with header+attributes ++ payload and with the model; non-trivial = distinct case lines".into(), exhaustive: false }
+        }
+        "C20" => {
+            let n = if thorough { 300_000 } else { 3_000 };
+            let lim = Limits { max_depth: if thorough { 5 } else { 3 }, boundary: true };
+            for _ in 0..n {
+                let mut rr = r.fork();
+                let m = gen_msg(&mut rr, &lim);
+                out.push(format!("json {}", show_msg(&m)));
+            }
+            GenInfo { rule: "seeded random messages of the domain of C01 (all 22 value kinds incl. raw-octet values, nested collections, mixed sets, repeated and empty groups) serialised by the real derive to JSON, rendered canonically, deserialised and compared; non-trivial = distinct messages".into(), exhaustive: false }
+        }
         "C04" => {
             let n = if thorough { 200_000 } else { 3_000 };
             let lim = crate::wiregen::WLimits { max_depth: if thorough { 6 } else { 4 }, malformed_per_mille: 8, boundary: true };
@@ -282,6 +327,13 @@ pub fn generate(prop: &str, tier: &str, r: &mut Rng, out: &mut Vec<String>) -> G
         "C01" | "C03" => {
             let n = if thorough { 300_000 } else { 3_000 };
             let lim = Limits { max_depth: if thorough { 6 } else { 4 }, boundary: true };
+            for m in boundary_msgs() {
+                if prop == "C03" {
+                    out.push(format!("encoded {}", show_msg(&m)));
+                } else {
+                    out.push(format!("roundtrip {} 0301", show_msg(&m)));
+                }
+            }
             for _ in 0..n {
                 let mut rr = r.fork();
                 let m = gen_msg(&mut rr, &lim);
@@ -293,7 +345,7 @@ pub fn generate(prop: &str, tier: &str, r: &mut Rng, out: &mut Vec<String>) -> G
                 }
             }
             GenInfo {
-                rule: "seeded random messages of the public value model (1-5 groups starting with the operation group, repeated/empty groups, 0-6 attributes, all 22 value kinds, homogeneous and mixed sets, collections to the tier's depth with multi-valued members, rare 255/256/65535-byte strings) with random payloads; each built with fresh randomly keyed hash maps; non-trivial = distinct effective case lines".into(),
+                rule: "a deterministic boundary suite (every string-carrying kind, names and member names at lengths 0/1/127/128/255/256/257/32767/32768/32769/65534/65535, with-language totals up to 65535, names that differ from the specially ordered operation attributes by case or one character, those names in other groups) followed by seeded random messages of the public value model (1-5 groups starting with the operation group, repeated/empty groups, 0-6 attributes, all 22 value kinds, homogeneous and mixed sets, collections to the tier's depth with multi-valued members, rare 255/256/65535-byte strings) with random payloads; each built with fresh randomly keyed hash maps; non-trivial = distinct effective case lines".into(),
                 exhaustive: false,
             }
         }
